@@ -68,6 +68,9 @@ enum Spoil {
     Broken,
     Invalid,
     Cancelled,
+    /// an interaction that is cancelled while its closure is still running; the closure panics a
+    /// little later - possibly after the connection is already back in the pool
+    LatePoison,
 }
 
 impl Spoil {
@@ -77,6 +80,7 @@ impl Spoil {
             Spoil::Broken => "broken",
             Spoil::Invalid => "invalid",
             Spoil::Cancelled => "cancelled",
+            Spoil::LatePoison => "latepoison",
         }
     }
 }
@@ -155,7 +159,7 @@ struct R2d2Subject {
 impl Subject for R2d2Subject {
     type Conn = Object<deadpool_r2d2::Manager<ScriptedMgr>>;
     fn kinds(&self) -> &'static [Spoil] {
-        &[Spoil::Poison, Spoil::Broken, Spoil::Invalid, Spoil::Cancelled]
+        &[Spoil::Poison, Spoil::Broken, Spoil::Invalid, Spoil::Cancelled, Spoil::LatePoison]
     }
     fn status(&self) -> deadpool::Status {
         self.pool.status()
@@ -183,6 +187,17 @@ impl Subject for R2d2Subject {
             Spoil::Cancelled => {
                 start_and_cancel(c.interact(|_| std::thread::sleep(Duration::from_micros(300))));
                 tokio::time::sleep(Duration::from_millis(2)).await;
+            }
+            Spoil::LatePoison => {
+                // wait until the closure is inside (it holds the wrapper's mutex from then on), so
+                // that every later interaction queues behind it and meets the poisoned mutex
+                let (tx, rx) = std::sync::mpsc::channel::<()>();
+                start_and_cancel(c.interact(move |_| {
+                    let _ = tx.send(());
+                    std::thread::sleep(Duration::from_millis(3));
+                    std::panic::panic_any("scripted late panic")
+                }));
+                let _ = rx.recv_timeout(Duration::from_secs(5));
             }
         }
     }
@@ -215,7 +230,7 @@ struct SqliteSubject {
 impl Subject for SqliteSubject {
     type Conn = deadpool_sqlite::Object;
     fn kinds(&self) -> &'static [Spoil] {
-        &[Spoil::Poison, Spoil::Cancelled]
+        &[Spoil::Poison, Spoil::Cancelled, Spoil::LatePoison]
     }
     fn status(&self) -> deadpool::Status {
         self.pool.status()
@@ -258,6 +273,17 @@ impl Subject for SqliteSubject {
                 start_and_cancel(c.interact(|_| std::thread::sleep(Duration::from_micros(300))));
                 tokio::time::sleep(Duration::from_millis(2)).await;
             }
+            Spoil::LatePoison => {
+                // wait until the closure is inside (it holds the wrapper's mutex from then on), so
+                // that every later interaction queues behind it and meets the poisoned mutex
+                let (tx, rx) = std::sync::mpsc::channel::<()>();
+                start_and_cancel(c.interact(move |_| {
+                    let _ = tx.send(());
+                    std::thread::sleep(Duration::from_millis(3));
+                    std::panic::panic_any("scripted late panic")
+                }));
+                let _ = rx.recv_timeout(Duration::from_secs(5));
+            }
             _ => unreachable!(),
         }
     }
@@ -295,9 +321,9 @@ impl Subject for DieselSubject {
     type Conn = deadpool_diesel::sqlite::Object;
     fn kinds(&self) -> &'static [Spoil] {
         if self.custom {
-            &[Spoil::Poison, Spoil::Broken, Spoil::Invalid, Spoil::Cancelled]
+            &[Spoil::Poison, Spoil::Broken, Spoil::Invalid, Spoil::Cancelled, Spoil::LatePoison]
         } else {
-            &[Spoil::Poison, Spoil::Broken, Spoil::Cancelled]
+            &[Spoil::Poison, Spoil::Broken, Spoil::Cancelled, Spoil::LatePoison]
         }
     }
     fn status(&self) -> deadpool::Status {
@@ -350,6 +376,17 @@ impl Subject for DieselSubject {
             Spoil::Cancelled => {
                 start_and_cancel(c.interact(|_| std::thread::sleep(Duration::from_micros(300))));
                 tokio::time::sleep(Duration::from_millis(2)).await;
+            }
+            Spoil::LatePoison => {
+                // wait until the closure is inside (it holds the wrapper's mutex from then on), so
+                // that every later interaction queues behind it and meets the poisoned mutex
+                let (tx, rx) = std::sync::mpsc::channel::<()>();
+                start_and_cancel(c.interact(move |_| {
+                    let _ = tx.send(());
+                    std::thread::sleep(Duration::from_millis(3));
+                    std::panic::panic_any("scripted late panic")
+                }));
+                let _ = rx.recv_timeout(Duration::from_secs(5));
             }
         }
     }
